@@ -248,6 +248,14 @@ def r163(db, ctx):
     ctx.rule('R16.3', 'motif / background_counts / active / starts are written only by _new, include_sequence, exclude_sequence and (starts[z]) update_holdout')
     allowed = {'motif': {'include_sequence', 'exclude_sequence'}, 'background_counts': {'include_sequence', 'exclude_sequence'},
                'active': {'include_sequence', 'exclude_sequence'}, 'starts': {'update_holdout'}}
+    try:
+        db.fn(f'{S}::update_holdout')
+        has_uh = True
+    except KeyError:
+        has_uh = False
+    if not has_uh:
+        # the helper has been merged into its only caller: the one store to starts[z] then lives in next() (its place in the protocol is R16.4's)
+        allowed['starts'] = {'next'}
     n = 0
     for f in db.fns.values():
         if not f.path.startswith('lightmotif::sampler::Sampler::') and not f.path.startswith('<lightmotif::sampler::Sampler<'):
@@ -278,28 +286,58 @@ def r163(db, ctx):
     ctx.ok('R16.3', S, f'{n} state writes, all inside include/exclude/update_holdout')
 
 
+def _reach_before(f, a, b):
+    """Blocks reachable from the entry without passing through block a (b is 'before a' on some path if it is in the result)."""
+    seen, stack = set(), [0]
+    while stack:
+        x = stack.pop()
+        if x in seen or x == a or f.blocks[x]['cleanup']:
+            continue
+        seen.add(x)
+        stack.extend(f.succs(x))
+    return seen
+
+
 def r164(db, ctx):
     ctx.rule('R16.4', 'next(): exclude_sequence(z) -> prepare_pssm -> update_holdout(z, &pssm) -> include_sequence(z) with the same z; the yielded counts / pssm are that prepare_pssm result')
     fs = [f for f in db.fns.values() if f.path.startswith('<lightmotif::sampler::Sampler<') and f.path.endswith('Iterator>::next') and f.kind == 'AssocFn']
     if len(fs) != 1:
         ctx.fail('R16.4', S, 'next', 'reason=anchor-missing')
         return
-    f = fs[0]
+    from lm import inline
+    f0 = fs[0]
+    # one canonical body: update_holdout (when it exists as a helper) is read in place, so that the protocol is the same whether the author
+    # keeps the helper or has merged it into next()
+    f = inline.inlined_copy(db, f0, ['::update_holdout'])
     R = X.Rec(f)
     def calls(suffix):
         return [(bi, t) for bi, t in f.calls() if (f.callee_short(t) or '').endswith(suffix)]
-    ex, pp, uh, inc, sh = calls('::exclude_sequence'), calls('::prepare_pssm'), calls('::update_holdout'), calls('::include_sequence'), calls('::select_holdout')
+    ex, pp, inc, sh = calls('::exclude_sequence'), calls('::prepare_pssm'), calls('::include_sequence'), calls('::select_holdout')
+    # the "update" step: score the held-out sequence into self.scores, then store the resampled start
+    sc_ = calls('Score::score_into')
+    st_ = [s_ for s_ in X.stores(f, R) if X.canon(('fld', ('p', 1), 'starts')) in X.canon(norm(s_['target']))]
     probs = []
-    if not (len(sh) == 1 and len(uh) == 1 and len(inc) == 1 and len(ex) >= 1 and len(pp) >= 1):
-        probs.append(f'call counts select={len(sh)} exclude={len(ex)} prepare={len(pp)} update={len(uh)} include={len(inc)}')
+    if not (len(sh) <= 1 and len(sc_) == 1 and len(st_) == 1 and len(inc) == 1 and len(ex) >= 1 and len(pp) >= 1):
+        probs.append(f'call counts select={len(sh)} exclude={len(ex)} prepare={len(pp)} score_into={len(sc_)} starts-stores={len(st_)} include={len(inc)}')
     else:
+        uh = [(sc_[0][0], sc_[0][1])]
+        st_blk = st_[0]['block']
         ex0 = min(ex, key=lambda x: len(f.dominators()[x[0]]))
         pp0 = min(pp, key=lambda x: len(f.dominators()[x[0]]))
-        order = [sh[0][0], ex0[0], pp0[0], uh[0][0], inc[0][0]]
+        order = ([sh[0][0]] if sh else []) + [ex0[0], pp0[0], uh[0][0]]
         for a, b in zip(order, order[1:]):
             if not f.dominates(a, b) or a == b:
                 probs.append('calls are not in the order select -> exclude -> prepare_pssm -> update_holdout -> include on every path')
                 break
+        # the start is stored after the scoring and before include(z) reads it
+        after_inc, stack_ = set(), list(f.succs(inc[0][0]))
+        while stack_:
+            x_ = stack_.pop()
+            if x_ not in after_inc and not f.blocks[x_]['cleanup']:
+                after_inc.add(x_)
+                stack_.extend(f.succs(x_))
+        if not (f.dominates(uh[0][0], st_blk) and f.dominates(uh[0][0], inc[0][0]) and st_blk not in after_inc and st_blk != inc[0][0]):
+            probs.append('the resampled start is not stored between the scoring of the held-out sequence and include_sequence(z)')
         # must-pass-through: once z has been excluded, no path reaches a return without passing include_sequence(z)
         # (dominance of the later call by the earlier one does not exclude an early return between them)
         seen_b, stack = set(), list(f.succs(ex0[0]))
@@ -314,11 +352,20 @@ def r164(db, ctx):
             probs.append('a path returns after exclude_sequence(z) without passing include_sequence(z): the state then lacks the held-out sequence '
                          'although active/starts still describe it as part of the alignment')
         z = norm(R.operand(ex0[1]['args'][1]))
-        zs = [norm(R.operand(t['args'][1])) for _, t in (uh + inc + ex)]
-        if any(x != z for x in zs) or not (z[0] == 'call' and z[1].endswith('select_holdout')):
+        zs = [norm(R.operand(t['args'][1])) for _, t in (inc + ex)]
+        # the sequence scored and the start stored are those of the same z
+        tg_ = norm(st_[0]['target'])
+        zi_ = m(('call~', 'index_mut', (('fld', ('p', 1), 'starts'), '$z')), tg_) or m(('idx', ('fld', ('p', 1), 'starts'), '$z'), tg_)
+        sq_ = norm(R.at(uh[0][0]).operand(uh[0][1]['args'][2]))
+        si_ = m(('idx', ('fld', ('fld', ('p', 1), 'data'), 'sequences'), '$z'), sq_) or m(('call~', '::index', (('fld', ('fld', ('p', 1), 'data'), 'sequences'), '$z')), sq_) or \
+            m(('idx', ('call~', 'AsRef::as_ref', (('fld', ('fld', ('p', 1), 'data'), 'sequences'),)), '$z'), sq_) or m(('call~', '::index', (('call~', 'AsRef::as_ref', (('fld', ('fld', ('p', 1), 'data'), 'sequences'),)), '$z')), sq_)
+        zs += [norm(zi_['$z'])] if zi_ is not None else [('?', 'starts index')]
+        zs += [norm(si_['$z'])] if si_ is not None else [('?', 'scored sequence')]
+        z_ok = (z[0] == 'call' and z[1].endswith('select_holdout')) or (not sh and z[0] == 'v')
+        if any(x != z for x in zs) or not z_ok:
             probs.append(f'exclude / update / include do not all receive the selected z: {[X.show(x, 40) for x in zs]}')
         # pssm passed to update_holdout is prepare_pssm().1
-        pa = norm(R.operand(uh[0][1]['args'][2]))
+        pa = X.strip_refs(norm(R.at(uh[0][0]).operand(uh[0][1]['args'][1])))
         if not (m(('fld', ('call~', 'prepare_pssm', ('_',)), '1'), pa) is not None):
             probs.append(f'update_holdout scores with {X.show(pa, 60)}, not the matrix prepared without z')
         # Iteration aggregate
@@ -421,18 +468,29 @@ def r165(db, ctx):
                             g = True
     (ctx.ok if g and pan else ctx.fail)('R16.5', f, '_new diverges unless every sequence has wrap >= width', *([['any(|x| x.wrap() < width) -> panic']] if g and pan else ['missing wrap precondition']))
     # update_holdout
-    u = db.fn(f'{S}::update_holdout')
+    try:
+        u = db.fn(f'{S}::update_holdout')
+    except KeyError:
+        # merged into next(): the same statements are looked for there (their place in the protocol is R16.4's)
+        us = [f_ for f_ in db.fns.values() if f_.path.startswith('<lightmotif::sampler::Sampler<') and f_.path.endswith('Iterator>::next') and f_.kind == 'AssocFn']
+        if len(us) != 1:
+            ctx.fail('R16.5', S, 'update step', 'reason=anchor-missing: neither update_holdout nor a unique next()')
+            return
+        u = us[0]
     R = X.Rec(u)
     sc = [(bi, t) for bi, t in u.calls() if (u.callee_short(t) or '').endswith('Score::score_into')]
     st = [s for s in X.stores(u, R) if X.canon(('fld', ('p', 1), 'starts')) in X.canon(norm(s['target']))]
     ok = False
     if len(sc) == 1 and len(st) == 1:
-        seq = norm(R.operand(sc[0][1]['args'][2]))
+        seq = norm(R.at(sc[0][0]).operand(sc[0][1]['args'][2]))
         tg = norm(st[0]['target'])
         v = norm(st[0]['value'])
-        zi = True if (m(('call~', 'index_mut', (('fld', ('p', 1), 'starts'), ('p', 2))), tg) is not None or m(('idx', ('fld', ('p', 1), 'starts'), ('p', 2)), tg) is not None) else None
-        seq_ok = (m(('idx', ('fld', ('fld', ('p', 1), 'data'), 'sequences'), ('p', 2)), seq) is not None or
-                  m(('call~', '::index', (('fld', ('fld', ('p', 1), 'data'), 'sequences'), ('p', 2))), seq) is not None)
+        zm = m(('call~', 'index_mut', (('fld', ('p', 1), 'starts'), '$z')), tg) or m(('idx', ('fld', ('p', 1), 'starts'), '$z'), tg)
+        zi = norm(zm['$z']) if zm is not None and norm(zm['$z'])[0] in ('p', 'v') else None
+        SEQS = ('fld', ('fld', ('p', 1), 'data'), 'sequences')
+        sm = m(('idx', SEQS, '$z'), seq) or m(('call~', '::index', (SEQS, '$z')), seq) or \
+            m(('idx', ('call~', 'AsRef::as_ref', (SEQS,)), '$z'), seq) or m(('call~', '::index', (('call~', 'AsRef::as_ref', (SEQS,)), '$z')), seq)
+        seq_ok = zi is not None and sm is not None and norm(sm['$z']) == zi
         # dist.sample(rng) with dist = WeightedIndex::new(self.scores.iter().map(f)): one weight per valid position, in position order
         val_ok = False
         bw = m(('call~', 'Distribution::sample', (('fld', ('down', ('call~', 'WeightedIndex::new', ('$w',)), 'Ok'), '0'), '_')), v)
@@ -587,11 +645,11 @@ def r169(db, ctx):
     from . import C04, C01
 
     def both(db_, ctx_):
-        C04.r45(db_, ctx_)
+        C04.lookahead_rules(db_, ctx_)
         C01.r14(db_, ctx_)
     common.shared_rule(db, ctx, both, 'R16.9', 'the striped layout the sampler reads through: configure_wrap keeps data.rows() - wrap equal to the number of '
                        'sequence rows and copies the look-ahead rows from the right cells; seq[i] = data[i % R][i / R], count_symbols visits the cells '
-                       'below len once (shared with R4.5 / R1.4)', ['R4.5', 'R1.4'])
+                       'below len once (shared with R4.5 / R4.8 / R1.4)', ['R4.5', 'R4.8', 'R1.4'])
 
 
 def run(db, ctx):
